@@ -14,7 +14,7 @@ func init() {
 		Trusted:     []string{"engine scheduler and sync/atomic/channel intrinsics"},
 		Outside:     []string{"schedules needing more than D delays", "more than P putters / K puts each", "weak-memory effects"},
 		Bounds: map[string]any{
-			"quick":    "2 slots; P = 2 putters × K = 2 puts (4 commands > 2 slots), PutOne and PutMulti; delay bound D = 2 (ring) / 3 (flow buffer)",
+			"quick":    "2 slots; P = 2 putters × K = 2 puts, PutOne and PutMulti, delay bound D = 2 (ring) / 3 (flow buffer); P = 3 concurrent putters × 1 put (more callers than slots) D = 2",
 			"thorough": "ring D = 3 with 2 slots, D = 2 with 4 slots and P = 3; flow buffer D = 4",
 		},
 		specs: func(tier string) []specRef {
@@ -22,6 +22,9 @@ func init() {
 				hsx(cmdsPkgRoot(), "VerifC02_index", nil, 10, 600, "lemma"),
 				hsd(rootPkg, "VerifC02_ring", P{"putters": 2, "puts": 2, "multi": 1, "factor": 1}, q(tier, 2, 3), 3000000, 3000, "done", "drained"),
 				hsd(rootPkg, "VerifC02_flow", P{"putters": 2, "puts": 2, "multi": 1, "factor": 1}, q(tier, 3, 4), 3000000, 3000, "done", "drained"),
+				// more concurrent callers than slots: a putter has to wait for an occupied slot
+				hsd(rootPkg, "VerifC02_ring", P{"putters": 3, "puts": 1, "multi": 0, "factor": 1}, q(tier, 2, 3), 3000000, 3000, "done", "drained"),
+				hsd(rootPkg, "VerifC02_flow", P{"putters": 3, "puts": 1, "multi": 0, "factor": 1}, q(tier, 2, 3), 3000000, 3000, "done", "drained"),
 			}
 			if tier == "thorough" {
 				s = append(s, hsd(rootPkg, "VerifC02_ring", P{"putters": 3, "puts": 2, "multi": 1, "factor": 2}, 2, 3000000, 3000, "done", "drained"))
